@@ -15,12 +15,22 @@ APH) and the ground-truth counts.  Compared after every operation: frame scores 
 manager vs the model's (which only knows the fresh evaluation), scene scores vs the model's pooled
 scores (1e-9), look-ups, the dataset.
 
+Tracking managers additionally run the EXTENDED machine `PEval.ManagerTracking.trun` (driver op `trun`): the stored
+object results of every fresh evaluation are also handed over per label in the vocabulary of the CLEAR model (uuid
+numbers, labels, matching value per mode, is_label_correct), and the model COMPUTES every per-frame tracking score
+(`evalClear [previous stored bucket, current bucket]`) and the scene tracking score (`evalClear` over
+`[[]] ++ stored buckets`, summed GT counts).  Compared: MOTA, MOTP, id switches, tp, fp, tp_matching_score,
+predict_num, num_ground_truth per label and threshold list, and `_sum_clear()`, for every add and every scene.
+
 Oracle (independent of the model): the property text on the real outputs — same call, different
 prefixes, same result (vs a fresh manager and among repetitions); dataset and caller's estimate lists
 untouched after every operation; scene score = recomputation from `manager.frame_results` with own
 pooling and fresh `MetricsScore`/`Map` objects; GT counts add up; one-frame scene = that frame's score;
 pooled AP invariant under a permuted insertion order (real manager run on the permuted order) when
-the pooled confidences are pairwise distinct.
+the pooled confidences are pairwise distinct.  Tracking: scene CLEAR = freshly constructed real
+`TrackingMetricsScore` / `CLEAR` objects on `[[]] ++ buckets of manager.frame_results` with the summed GT counts;
+per-frame CLEAR = fresh `CLEAR` on `[bucket of the previously stored result, bucket of this one]`; scene tp / fp /
+id switches / matching score = sums of the ones stored in the frame results.
 """
 from __future__ import annotations
 
@@ -41,6 +51,12 @@ THEOREMS = [
         "scene_numgt_sum", "scene_total_numgt", "scene_numgt_sum_ops",
         "scene_eq_pooled", "scene_eq_pooled_ops", "scene_single_frame",
         "sort_perm_eq", "pooled_perm", "pooled_ap_perm_invariant", "pooled_ap_perm_invariant_ops",
+        # tracking scores concrete (Properties/C13Tracking.lean, extended machine PEval.ManagerTracking)
+        "tracking_machine_refines",
+        "frame_tracking_depends_on_last_only", "frame_tracking_same_last", "frame_tracking_two_step", "frame_tracking_first",
+        "scene_tracking_eq_pooled", "scene_tracking_eq_pooled_ops", "scene_tracking_single_frame",
+        "scene_tracking_switches_sum_from", "scene_tracking_switches_sum", "scene_tracking_mota_weighted_mean",
+        "scene_tracking_rename_invariant", "scene_tracking_rename_invariant_from",
     ]
 ]
 RULE = (
@@ -48,10 +64,14 @@ RULE = (
     "the not-run remainder is listed as not-run:time-budget) over 2..5 generated frames, 2..5 estimate lists, 2..4 critical "
     "filters (x/y or distance ranges, narrow and wide, optional confidence thresholds), 1..2 pass/fail configs; detection and "
     "tracking task; base_link and map frame; patterns: random, narrow-then-wider filter on one GT frame, repeated identical "
-    "calls, permuted frame orders (with the permuted run on a second real manager), one-frame scenes, scene before any add; "
+    "calls, permuted frame orders (with the permuted run on a second real manager), one-frame scenes, scene before any add, "
+    "tracking managers fed the frames in recording order (carry-over, id switches) with repeats and interleaved scenes; "
     "non-trivial = at least one add that stores an object result or a ground truth; distinct = distinct case JSON"
 )
 TRUSTED = [
+    "tracking view handed to the extended model: per stored result (uuid number, label number, GT uuid/label/is_fp, "
+    "get_matching(mode).value for the four modes, is_label_correct), bucketed by the own pooling rule; threshold lists and "
+    "their order read from manager.metrics_config.tracking_config",
     "abstraction of a stored frame result handed to the model: own bucketing by label (estimate's label, GT's label when the "
     "estimate's is not a target label), DynamicObjectWithPerceptionResult.is_result_correct and TPMetricsAph.get_value for the "
     "TP value per threshold (matching and TP decisions themselves are C01-C09, abstract here)",
@@ -61,7 +81,8 @@ TRUSTED = [
 ASSUMPTIONS = [
     "critical-filter target labels = the manager's target labels (frame-level Map raises KeyError otherwise)",
     "3-D tasks (detection, tracking); 2-D/classification managers share the same add/scene code and are not generated",
-    "scene-level CLEAR scores are checked by the oracle's pooled recomputation only (CLEAR itself is C05); the model pools AP/APH, mAP/mAPH and GT counts",
+    "tracking: TP weight = TPMetricsAp (1 per TP), as MetricsScore.evaluate_tracking constructs its CLEARs; the matching values "
+    "(centre/plane distance, IoU) of the stored results are inputs of the model (exact Fractions of the real floats)",
 ]
 
 LABELS = ["car", "bicycle", "pedestrian", "motorbike"]
@@ -243,13 +264,119 @@ def _maps_summary(score):
     return out
 
 
+def _clear_row(c):
+    """(mota, motp, id_switch, tp, fp, predict_num, num_ground_truth, tp_matching_score)"""
+    return [_f(c.mota), _f(c.motp), c.id_switch, _f(c.tp), _f(c.fp), c.objects_results_num, c.num_ground_truth, _f(c.tp_matching_score)]
+
+
+def _ts_summary(ts):
+    mo, mp, sw = ts._sum_clear()
+    return {"mode": ts.matching_mode.value, "clears": [_clear_row(c) for c in ts.clears], "total": [_f(mo), _f(mp), int(sw)]}
+
+
 def _track_summary(score):
+    return [_ts_summary(ts) for ts in score.tracking_scores]
+
+
+# matching modes in the order of the model's `TRes.values`; the bool = "larger is better"
+def _modes():
+    from perception_eval.evaluation.matching import MatchingMode as M
+
+    return [(M.CENTERDISTANCE, False), (M.IOU2D, True), (M.IOU3D, True), (M.PLANEDISTANCE, False)]
+
+
+def _tcfgs(m):
+    """the TrackingMetricsScore objects MetricsScore.evaluate_tracking builds, read from the CONFIGURATION:
+    (mode number, maximize, threshold list), in the order centre distance, IoU 2D, IoU 3D, plane distance"""
+    tc = m.metrics_config.tracking_config
     out = []
-    for ts in score.tracking_scores:
-        out.append({"mode": ts.matching_mode.value,
-                    "clears": [[_f(c.mota), _f(c.motp), c.id_switch, _f(c.tp), _f(c.fp), c.objects_results_num, c.num_ground_truth]
-                               for c in ts.clears]})
+    for mi, lists in ((0, tc.center_distance_thresholds), (1, tc.iou_2d_thresholds), (2, tc.iou_3d_thresholds), (3, tc.plane_distance_thresholds)):
+        for thr in lists:
+            out.append({"mode": mi, "maximize": _modes()[mi][1], "thr": [float(t) for t in thr]})
     return out
+
+
+def _label_no(label):
+    """label number of the model: index among the target labels, other labels after them"""
+    v = label.value
+    if v in LABELS:
+        return LABELS.index(v)
+    return len(LABELS) + sorted(l.value for l in type(label)).index(v)
+
+
+def _uuid_no(case):
+    """uuid string -> number, fixed by the case (the same in every Universe built from it)"""
+    us = sorted({o["uuid"] for f in case["frames"] for o in f["objects"]} | {o["uuid"] for el in case["ests"] for o in el})
+    return {u: i for i, u in enumerate(us)}
+
+
+def _tb_data(m, case, r):
+    """the tracking view handed to the extended model: per target label the stored object results as `TRes`"""
+    from perception_eval.evaluation.metrics.detection.tp_metrics import TPMetricsAp
+
+    un = _uuid_no(case)
+    tpm = TPMetricsAp()
+    out = []
+    for b in _bucket(m, r.object_results):
+        rows = []
+        for x in b:
+            eo, go = x.estimated_object, x.ground_truth_object
+            vs = []
+            for mode, _ in _modes():
+                mt = x.get_matching(mode)
+                v = mt.value if (mt is not None and mt.value is not None) else 0.0
+                vs.append(core.q(float(v)))
+            row = {"e": un[eo.uuid], "el": _label_no(eo.semantic_label.label), "g": None, "v": vs,
+                   "ok": bool(x.is_label_correct), "w": core.q(float(tpm.get_value(x)))}
+            if go is not None:
+                row.update(g=un[go.uuid], gl=_label_no(go.semantic_label.label), gfp=bool(go.semantic_label.is_fp()))
+            rows.append(row)
+        out.append(rows)
+    return out
+
+
+def _direct_tracking(m, hist, numgt):
+    """fresh real TrackingMetricsScore AND fresh real CLEAR objects (one per label) on the given per-label nested lists
+    `hist[label] = [f0, f1, …]` and GT counts; returns (summary via TrackingMetricsScore, rows via CLEAR)"""
+    from perception_eval.evaluation.metrics.tracking.clear import CLEAR
+    from perception_eval.evaluation.metrics.tracking.tracking_metrics_score import TrackingMetricsScore
+
+    labels = m.target_labels
+    via_tms, via_clear = [], []
+    for cfg in _tcfgs(m):
+        mode = _modes()[cfg["mode"]][0]
+        ts = TrackingMetricsScore(object_results_dict={l: [list(f) for f in hist[l]] for l in labels}, num_ground_truth_dict=dict(numgt),
+                                  target_labels=list(labels), matching_mode=mode, matching_threshold_list=list(cfg["thr"]))
+        via_tms.append(_ts_summary(ts))
+        rows = []
+        for l, t in zip(labels, cfg["thr"]):
+            rows.append(_clear_row(CLEAR(object_results=[list(f) for f in hist[l]], num_ground_truth=numgt[l], target_labels=[l],
+                                         matching_mode=mode, matching_threshold_list=[t])))
+        via_clear.append({"mode": mode.value, "clears": rows})
+    return {"tms": via_tms, "clear": via_clear}
+
+
+def _direct_scene(m):
+    labels = m.target_labels
+    hist = {l: [[]] for l in labels}
+    numgt = {l: 0 for l in labels}
+    for fr in m.frame_results:
+        b = _bucket(m, fr.object_results)
+        n = _count(m, fr.frame_ground_truth.objects)
+        for i, l in enumerate(labels):
+            hist[l].append(list(b[i]))
+            numgt[l] += n[i]
+    return _direct_tracking(m, hist, numgt)
+
+
+def _direct_frame(m):
+    """the last stored result against the one stored before it (`[]` per label if it is the first)"""
+    labels = m.target_labels
+    cur = m.frame_results[-1]
+    cb = _bucket(m, cur.object_results)
+    pb = _bucket(m, m.frame_results[-2].object_results) if len(m.frame_results) > 1 else [[] for _ in labels]
+    n = _count(m, cur.frame_ground_truth.objects)
+    return _direct_tracking(m, {l: [list(pb[i]), list(cb[i])] for i, l in enumerate(labels)}, {l: n[i] for i, l in enumerate(labels)})
 
 
 def _track_flat(tr):
@@ -297,6 +424,13 @@ def _det_data(m, U, r):
             rows.append(row)
         buckets.append(rows)
     return {"results": buckets, "numgt": _count(m, r.frame_ground_truth.objects), "ncols": 2 * len(cols)}
+
+
+def _det_data_t(m, U, case, r):
+    d = _det_data(m, U, r)
+    if case["task"] == "tracking":
+        d["tb"] = _tb_data(m, case, r)
+    return d
 
 
 def _snapshot(m, U, ests):
@@ -381,7 +515,7 @@ def run_impl(case):
                 m2 = _manager(case, False)
                 m2.ground_truth_frames = list(U2.frames)
                 r2 = _do_add(m2, U2, case, op)
-                single[k] = {"sum": _frame_summary(m2, U2, r2), "det": _det_data(m2, U2, r2)}
+                single[k] = {"sum": _frame_summary(m2, U2, r2), "det": _det_data_t(m2, U2, case, r2)}
             return single[k]
 
         def fresh_pair(prev, op):
@@ -392,7 +526,7 @@ def run_impl(case):
                 m3.ground_truth_frames = list(U3.frames)
                 r0 = _do_add(m3, U3, case, prev)
                 if _key(prev) not in single:
-                    single[_key(prev)] = {"sum": _frame_summary(m3, U3, r0), "det": _det_data(m3, U3, r0)}
+                    single[_key(prev)] = {"sum": _frame_summary(m3, U3, r0), "det": _det_data_t(m3, U3, case, r0)}
                 r1 = _do_add(m3, U3, case, op)
                 pair[k] = _track_summary(r1.metrics_score)
             return pair[k]
@@ -412,12 +546,18 @@ def run_impl(case):
                 if case["task"] == "tracking" and last_add is None:
                     o["track_ref"] = fs["sum"]["tracking"]
                 o["stored_is_returned"] = m.frame_results[-1] is r
+                if case["task"] == "tracking":
+                    o["track_direct"] = _direct_frame(m)
                 last_add = op
             elif op["o"] == "scene":
                 sc = m.get_scene_result()
                 o["scene"] = _scene_summary(m, sc)
                 o["pooled"] = _pooled_recompute(m)
                 o["n_frames"] = len(m.frame_results)
+                if case["task"] == "tracking":
+                    o["tcfgs"] = _tcfgs(m)
+                    o["track_direct"] = _direct_scene(m)
+                    o["frame_tracks"] = [_track_summary(fr.metrics_score) for fr in m.frame_results]
                 if len(m.frame_results) == 1:
                     o["only_frame"] = _maps_summary(m.frame_results[0].metrics_score)
             elif op["o"] == "lookup":
@@ -434,6 +574,8 @@ def run_impl(case):
             o["n_results"] = len(m.frame_results)
             outs.append(o)
         res = {"outs": outs, "dataset": [[f.unix_time, int(f.frame_name), [U.h(x) for x in f.objects]] for f in m.ground_truth_frames]}
+        if case["task"] == "tracking":
+            res["tcfgs"] = _tcfgs(m)
         if case.get("perm") is not None:
             adds = [op for op in ops if op["o"] == "add"]
             U4 = Universe(case)
@@ -472,6 +614,8 @@ def _request(case, out, order=None):
             d = out["outs"][i]["det"]
             dindex[k] = len(dets)
             dets.append({"frame": case["frames"][op["k"]]["name"], "e": _e(op), "c": cidx[ab], "results": d["results"], "numgt": d["numgt"]})
+            if "tb" in d:
+                dets[-1]["tb"] = d["tb"]
     c = _cfg_dict(case["task"])
     ncols = 2 * (len(c["center_distance_thresholds"]) + len(c["iou_2d_thresholds"]) + len(c["iou_3d_thresholds"]) + len(c["plane_distance_thresholds"]))
     if adds and out["outs"][adds[0][0]]["det"]["ncols"] != ncols:
@@ -503,13 +647,75 @@ def _request(case, out, order=None):
             "dets": dets, "tracks": tracks, "ops": mops}
 
 
+def _trequest(case, out):
+    """the same operation sequence for the extended machine (tracking scores computed by the model)"""
+    r = _request(case, out)
+    r.pop("tracks", None)
+    r.update(op="trun", labels=list(range(len(LABELS))),
+             tcfgs=[{"mode": c["mode"], "maximize": c["maximize"], "thr": [core.q(t) for t in c["thr"]]} for c in out["tcfgs"]])
+    return r
+
+
 def model_requests(case, out):
     if "err" in out or "not_run" in out:
         return []
     reqs = [_request(case, out)]
     if case.get("perm") is not None and "perm_scene" in out:
         reqs.append(_request(case, out, order=case["perm"]))
+    if case["task"] == "tracking":
+        reqs.append(_trequest(case, out))  # always the LAST request of a tracking case
     return reqs
+
+
+def _cmp_tscores(model, real, what):
+    """model `track` (list of TScore JSON) against the real tracking_scores summary"""
+    if len(model) != len(real):
+        return f"{what}: {len(real)} real tracking scores, model {len(model)}"
+    for k, (mt, rt) in enumerate(zip(model, real)):
+        if len(mt["clears"]) != len(rt["clears"]):
+            return f"{what}: tracking_scores[{k}] has {len(rt['clears'])} CLEARs, model {len(mt['clears'])}"
+        for l, (mc, rc) in enumerate(zip(mt["clears"], rt["clears"])):
+            mota, motp, sw, tp, fp, n, g, score = rc
+            w = f"{what}: tracking_scores[{k}] ({rt['mode']}) CLEAR[{LABELS[l]}]"
+            if mc["sw"] != sw:
+                return f"{w} id_switch real {sw} model {mc['sw']}"
+            if fp is None or mc["fp"] != fp:
+                return f"{w} fp real {fp} model {mc['fp']}"
+            if mc["predict_num"] != n or mc["g"] != g:
+                return f"{w} predict_num/num_ground_truth real {n}/{g} model {mc['predict_num']}/{mc['g']}"
+            for name, rv, mv in (("tp", tp, mc["tp"]), ("tp_matching_score", score, mc["score"]), ("MOTA", mota, mc["mota"]), ("MOTP", motp, mc["motp"])):
+                if not core.close(rv, core.unq(mv)):
+                    return f"{w} {name} real {rv} model {None if mv is None else float(core.unq(mv))}"
+        mo, mp, sw = rt["total"]
+        if mt["sw"] != sw or not core.close(mo, core.unq(mt["mota"])) or not core.close(mp, core.unq(mt["motp"])):
+            return f"{what}: tracking_scores[{k}] ({rt['mode']}) _sum_clear real {rt['total']} model {[mt['mota'], mt['motp'], mt['sw']]}"
+    return None
+
+
+def _compare_tracking(case, out, tr):
+    mo = tr["outs"]
+    if len(mo) != len(out["outs"]):
+        return f"extended model answered {len(mo)} operations, implementation {len(out['outs'])}"
+    for i, (a, b) in enumerate(zip(out["outs"], mo)):
+        w = f"op {i} ({a['o']}) [extended model]"
+        if a["o"] == "add":
+            if b["numgt"] != a["st"]["numgt"]:
+                return f"{w}: GT counts real {a['st']['numgt']} model {b['numgt']}"
+            d = _cmp_tscores(b["track"], a["st"]["tracking"], w + " frame tracking = evalClear [previous stored bucket, current bucket]")
+            if d:
+                return d
+        elif a["o"] == "scene":
+            sc = a["scene"]
+            if b["used"] != sc["used"]:
+                return f"{w}: used frames real {sc['used']} model {b['used']}"
+            if any(n != a["n_frames"] + 1 for n in b["n_frames"]):
+                return f"{w}: model history lengths {b['n_frames']} for {a['n_frames']} stored frames"
+            d = _cmp_tscores(b["track"], sc["tracking"], w + " scene tracking = evalClear ([[]] ++ stored buckets, summed GT)")
+            if d:
+                return d
+    if out["outs"] and tr["n_frame_results"] != out["outs"][-1]["n_results"]:
+        return f"number of stored results real {out['outs'][-1]['n_results']} extended model {tr['n_frame_results']}"
+    return None
 
 
 def _cmp_cols(model_ap, model_map, maps, what):
@@ -584,6 +790,12 @@ def compare(case, out, resps):
         return f"dataset after the run: real {out['dataset']} model {md}"
     if out["outs"] and r["n_frame_results"] != out["outs"][-1]["n_results"]:
         return f"number of stored results real {out['outs'][-1]['n_results']} model {r['n_frame_results']}"
+    if case["task"] == "tracking":
+        if len(resps) < 2 or "outs" not in resps[-1]:
+            return f"no answer of the extended model: {resps[-1] if resps else None}"
+        d = _compare_tracking(case, out, resps[-1])
+        if d:
+            return d
     if len(resps) > 1 and "perm_scene" in out:
         b = resps[1]["outs"][-1]
         d = _cmp_cols(b["ap"], b["map"], out["perm_scene"]["maps"], "permuted run scene")
@@ -615,9 +827,33 @@ def _same_tracking(a, b):
     if len(a) != len(b):
         return f"{len(a)} vs {len(b)} tracking scores"
     for x, y in zip(a, b):
+        if x["mode"] != y["mode"] or len(x["clears"]) != len(y["clears"]):
+            return f"tracking score {x['mode']} with {len(x['clears'])} CLEARs vs {y['mode']} with {len(y['clears'])}"
         for li, (c, d) in enumerate(zip(x["clears"], y["clears"])):
             if len(c) != len(d) or any(not core.close(u, v) for u, v in zip(c, d)):
-                return f"CLEAR[{x['mode']}][{LABELS[li]}] (mota, motp, id_switch, tp, fp, n, n_gt) {c} vs {d}"
+                return f"CLEAR[{x['mode']}][{LABELS[li]}] (mota, motp, id_switch, tp, fp, n, n_gt, score) {c} vs {d}"
+        if "total" in x and "total" in y and any(not core.close(u, v) for u, v in zip(x["total"], y["total"])):
+            return f"_sum_clear[{x['mode']}] (mota, motp, id_switch) {x['total']} vs {y['total']}"
+    return None
+
+
+def _direct_check(tracking, direct):
+    return _same_tracking(tracking, direct["tms"]) or _same_tracking(tracking, direct["clear"])
+
+
+def _sums_check(scene_tracking, frame_tracks):
+    """scene id switches / tp / fp / tp_matching_score / predict_num / num_ground_truth = sums over the stored frame results"""
+    names = {2: "id_switch", 3: "tp", 4: "fp", 5: "predict_num", 6: "num_ground_truth", 7: "tp_matching_score"}
+    for i, ft in enumerate(frame_tracks):
+        if len(ft) != len(scene_tracking) or any(len(a["clears"]) != len(b["clears"]) for a, b in zip(ft, scene_tracking)):
+            return f"stored frame result {i} has {len(ft)} tracking scores, the scene has {len(scene_tracking)}"
+    for k, ts in enumerate(scene_tracking):
+        for li, row in enumerate(ts["clears"]):
+            for j, name in names.items():
+                tot = sum((ft[k]["clears"][li][j] or 0) for ft in frame_tracks)
+                if not core.close(row[j], tot):
+                    return (f"scene {name} of CLEAR[{ts['mode']}][{LABELS[li]}] is {row[j]}, the stored frame results have "
+                            f"{[ft[k]['clears'][li][j] for ft in frame_tracks]} (sum {tot})")
     return None
 
 
@@ -659,11 +895,23 @@ def oracle(case, out):
                 d = _same_tracking(o["st"]["tracking"], o["track_ref"] or [])
                 if d:
                     return f"{w}: tracking part differs from a fresh manager evaluating only the predecessor call and this call — {d}"
+                d = _direct_check(o["st"]["tracking"], o["track_direct"])
+                if d:
+                    return (f"{w}: tracking scores differ from fresh TrackingMetricsScore/CLEAR objects on [bucket of the previously "
+                            f"stored result, bucket of this result] with this frame's GT counts — {d}")
         elif op["o"] == "scene":
             sc, po = o["scene"], o["pooled"]
             d = _same_maps(sc["maps"], po["maps"]) or _same_tracking(sc["tracking"], po["tracking"])
             if d:
                 return f"{w}: scene score differs from the score of the pooled frame results — {d}"
+            if case["task"] == "tracking":
+                d = _direct_check(sc["tracking"], o["track_direct"])
+                if d:
+                    return (f"{w}: scene tracking scores differ from fresh TrackingMetricsScore/CLEAR objects on [[]] + the buckets of "
+                            f"manager.frame_results with the summed GT counts — {d}")
+                d = _sums_check(sc["tracking"], o["frame_tracks"])
+                if d:
+                    return f"{w}: {d}"
             if sc["num_gt"] != po["num_gt"] or sc["num_gt"] != sum(po["numgt"]):
                 return f"{w}: scene num_ground_truth {sc['num_gt']} is not the sum over frames {po['numgt']}"
             stored = [x["st"]["numgt"] for x in out["outs"][:i] if x["o"] == "add"]
@@ -822,6 +1070,17 @@ def _gen_case(rng, max_ops, pattern):
         perm = list(range(na))
         while na > 1 and perm == list(range(na)):
             rng.shuffle(perm)
+    elif pattern == "track_seq":
+        # the frames in recording order under the wide filter (consecutive frames share tracks: carry-over, id switches),
+        # now and then one frame repeated or out of order, scene queries in between and at the end
+        for k in range(nf):
+            ops.append(add(k, k if rng.random() < 0.9 else None, 1 if rng.random() < 0.8 else None, 0))
+            if rng.random() < 0.2:
+                ops.append(add(rng.randrange(nf), None, 1, 0))
+            if rng.random() < 0.25:
+                ops.append({"o": "scene"})
+        ops.append({"o": "scene"})
+        n = len(ops)
     while len(ops) < n and pattern != "perm":
         u = rng.random()
         ops.append(add() if u < 0.65 else {"o": "scene"} if u < 0.85 else lookup())
@@ -831,7 +1090,8 @@ def _gen_case(rng, max_ops, pattern):
         if na > 1:
             perm = list(range(na))
             rng.shuffle(perm)
-    case = {"kind": "seq", "pattern": pattern, "task": rng.choice(["detection", "detection", "tracking"]),
+    task = rng.choice(["detection", "detection", "tracking"])
+    case = {"kind": "seq", "pattern": pattern, "task": "tracking" if pattern == "track_seq" else task,
             "frame_id": "base_link" if rng.random() < 0.75 else "map",
             "frames": frames, "ests": ests, "crit": crit, "pf": pf, "ops": ops}
     if perm is not None:
@@ -839,7 +1099,7 @@ def _gen_case(rng, max_ops, pattern):
     return case
 
 
-PATTERNS = ["random", "random", "random", "narrow_wide", "narrow_wide", "repeat", "perm", "perm", "single", "empty_scene"]
+PATTERNS = ["random", "random", "random", "narrow_wide", "narrow_wide", "repeat", "perm", "perm", "single", "empty_scene", "track_seq", "track_seq"]
 
 
 def generate(rng, tier):
@@ -888,6 +1148,24 @@ def corpus():
         cs.append(dict(base, task=task, frame_id="base_link", ops=[S, A(0, 0, 1), S, A(1, 1, 1), S, {"o": "lookup", "t": 1_050_000}, A(0, 0, 1)], perm=[2, 0, 1]))
         cs.append(dict(base, task=task, frame_id="base_link", ops=[A(1, 1, 1), A(0, 0, 1), A(1, 1, 1), {"o": "lookup", "t": 1_180_000}, S], perm=[1, 2, 0]))
         cs.append(dict(base, task=task, frame_id="base_link", ops=[A(1, 0, 1), A(0, 1, 0), S]))
+    # tracking corner cases of the scene-level CLEAR: a pairing kept by a result that fails its own test (1.5 m > 1 m:
+    # carried over with the previous score at threshold 1, own test at threshold 2), then the two track ids exchanged
+    # (two switches), then a frame with clutter only; scene after every add, the first frame evaluated twice
+    tframes = [
+        {"time": 1_000_000, "name": 0, "ego": [0.0, 0.0, 0.0], "objects": [_obj(1, 10.0, 0.0, uuid="g1"), _obj(2, 20.0, 5.0, uuid="g2")]},
+        {"time": 1_100_000, "name": 1, "ego": [1.0, 0.0, 0.0], "objects": [_obj(3, 11.0, 0.0, uuid="g1"), _obj(4, 21.0, 5.0, uuid="g2")]},
+        {"time": 1_200_000, "name": 2, "ego": [2.0, 0.0, 0.0], "objects": [_obj(5, 12.0, 0.0, uuid="g1"), _obj(6, 22.0, 5.0, uuid="g2")]},
+        {"time": 1_300_000, "name": 3, "ego": [3.0, 0.0, 0.0], "objects": [_obj(7, 13.0, 0.0, uuid="g1", label="pedestrian")]},
+    ]
+    tests = [
+        [_obj(11, 10.25, 0.0, uuid="t1", score=0.9), _obj(12, 20.5, 5.0, uuid="t2", score=0.8)],
+        [_obj(13, 12.5, 0.0, uuid="t1", score=0.7), _obj(14, 21.25, 5.0, uuid="t2", score=0.6)],
+        [_obj(15, 12.25, 0.0, uuid="t2", score=0.5), _obj(16, 22.25, 5.0, uuid="t1", score=0.4)],
+        [_obj(17, -30.0, 8.0, uuid="c1", score=0.3), _obj(18, 13.25, 0.0, uuid="t2", label="pedestrian", score=0.2)],
+    ]
+    tbase = {"kind": "seq", "pattern": "corpus", "task": "tracking", "frame_id": "base_link", "frames": tframes, "ests": tests, "crit": crit, "pf": pf}
+    cs.append(dict(tbase, ops=[A(0, 0, 1), S, A(1, 1, 1), S, A(2, 2, 1), S, A(3, 3, 1), S, A(0, 0, 1), S]))
+    cs.append(dict(tbase, ops=[A(2, 2, 1), A(0, 0, 1), {"o": "lookup", "t": 1_090_000}, A(1, 1, 1), S, A(1, 1, 0), A(3, 3, 1), S], perm=[4, 0, 3, 1, 2]))
     return cs
 
 
@@ -945,6 +1223,23 @@ def branches(case, out):
             br.append("track:id-switch")
         if any(o.get("track_ref") is not None for o in adds[1:]):
             br.append("track:with-predecessor")
+        for o in sc:
+            rows = [c for t in o["scene"]["tracking"] for c in t["clears"]]
+            if any(c[2] for c in rows):
+                br.append("track:scene-id-switch")
+            if any(c[4] for c in rows):
+                br.append("track:scene-fp")
+            if any(c[0] is None for c in rows):
+                br.append("track:scene-mota-inf")
+            if any(c[0] == 0 and c[6] and (c[3] - c[4] - c[2]) < 0 for c in rows):
+                br.append("track:scene-mota-clamped")
+            if any(c[0] is not None and 0 < c[0] < 1 for c in rows):
+                br.append("track:scene-mota-fractional")
+            if any(c[1] is not None and c[1] > 0 for c in rows):
+                br.append("track:scene-motp>0")
+            if o["n_frames"] > 1 and any(sum(ft[k]["clears"][li][2] for ft in o["frame_tracks"]) > 0
+                                         for k, t in enumerate(o["scene"]["tracking"]) for li in range(len(t["clears"]))):
+                br.append("track:scene-switch-from-later-frame")
     if "perm_scene" in out:
         confs = out["main_pooled"]["confs"]
         br.append("perm:" + ("distinct" if all(len(set(c)) == len(c) for c in confs) else "with-ties"))
@@ -975,4 +1270,4 @@ def shrink(case):
 
 def search(rng, st, disagreements):
     """extra sequences aimed at the history patterns (re-use of a GT frame, repeated calls, permutations)"""
-    return [_gen_case(rng, 12, p) for p in ("narrow_wide", "repeat", "perm", "random") for _ in range(40)]
+    return [_gen_case(rng, 12, p) for p in ("narrow_wide", "repeat", "perm", "random", "track_seq") for _ in range(40)]
